@@ -16,6 +16,7 @@ pub fn run(tier: Tier) -> i32 {
                 p.xml_lang = 1;
                 p.kind_mix = true;
             },
+            also: None,
         },
     )
 }
